@@ -363,7 +363,7 @@ pub(crate) fn extract_code_block_start(line: &str) -> Option<(&str, &str, &str)>
                 ));
             }
         } else if ch != '`' {
-            if index < 2 {
+            if index < 3 {
                 return None;
             }
             language_start = Some(index);
